@@ -551,4 +551,218 @@ end
 theorem sz_pos (v : Val) : 0 < sz v := by
   cases v <;> simp [sz] <;> omega
 
+/-! ### association lists -/
+
+theorem insert_of_not_mem (k : Str) (v : Val) (acc : Entries) (h : k ∉ keys acc) :
+    insert k v acc = acc ++ [(k, v)] := by
+  induction acc with
+  | nil => rfl
+  | cons e acc ih =>
+    obtain ⟨k', v'⟩ := e
+    simp only [keys, List.map_cons, List.mem_cons, not_or] at h
+    simp only [insert, h.1, if_false, List.cons_append]
+    rw [ih (by simpa [keys] using h.2)]
+
+theorem distinct_mid (acc : Entries) (k : Str) (v : Val) (r : Entries)
+    (h : distinctKeys (acc ++ (k, v) :: r) = true) : k ∉ keys acc := by
+  induction acc with
+  | nil => simp [keys]
+  | cons e acc ih =>
+    obtain ⟨k', v'⟩ := e
+    simp only [List.cons_append, distinctKeys, Bool.and_eq_true, Bool.not_eq_true',
+      List.any_eq_false, List.mem_append, List.mem_cons] at h
+    have h1 := h.1 (k, v) (Or.inr (Or.inl rfl))
+    simp only [beq_iff_eq] at h1
+    simp only [keys, List.map_cons, List.mem_cons, not_or]
+    exact ⟨h1, by simpa [keys] using ih h.2⟩
+
+/-! ### the round trip -/
+
+theorem members_step (f : Nat) (html : Bool) (k : Str) (tail : Str) (acc : Entries) :
+    members (f + 1) (quote html k ++ ':' :: tail) acc =
+      (match value f tail with
+        | none => none
+        | some (v, r3) => match skipWs r3 with
+          | ',' :: r4 => members f r4 (insert k v acc)
+          | '}' :: r4 => some (.map (insert k v acc), r4)
+          | _ => none) := by
+  rw [members, quote_append, skipWs_cons_of _ _ (by decide)]
+  simp only []
+  rw [strBody_flatMap html k _ (':' :: tail) []
+    (by have := length_le_flatMap_quoteChar html k
+        simp only [List.length_append, List.length_cons]; omega)]
+  simp only [List.reverse_nil, List.nil_append]
+  rw [skipWs_cons_of _ _ (by decide)]
+  rfl
+
+/-- the first character of an encoded value is no white space and no closing bracket -/
+theorem encN_head (html : Bool) (v : Val) (hv : JsonShaped v = true) :
+    ∃ c tl, encN html v = c :: tl ∧ isWs c = false ∧ c ≠ ']' ∧ c ≠ '}' := by
+  cases v with
+  | null => exact ⟨'n', _, rfl, by decide⟩
+  | bool b => cases b
+              · exact ⟨'f', _, rfl, by decide⟩
+              · exact ⟨'t', _, rfl, by decide⟩
+  | num t =>
+    simp only [JsonShaped, Bool.and_eq_true] at hv
+    obtain ⟨c, tl, he, hc⟩ := numberLit_head _ _ _ ((NumOk_iff _).1 hv.2)
+    have := numHead_facts c hc
+    exact ⟨c, tl, by simp [encN, he], this.1, this.2.2.2.2.2.2.2.1, this.2.2.2.2.2.2.2.2⟩
+  | str s => exact ⟨'"', s.flatMap (quoteChar html) ++ ['"'], by simp [encN, quote], by decide⟩
+  | list xs => exact ⟨'[', encList html xs ++ [']'], by simp [encN], by decide⟩
+  | map kvs => exact ⟨'{', encEntries html kvs ++ ['}'], by simp [encN], by decide⟩
+
+theorem value_bracket_ne (f : Nat) (c : Char) (tl : Str) (h : isWs c = false) (h2 : c ≠ ']') :
+    value (f + 1) ('[' :: c :: tl) = elements f (c :: tl) [] := by
+  rw [value_bracket, skipWs_cons_of _ _ h]
+  split
+  · next heq => simp only [List.cons.injEq] at heq; exact absurd heq.1 h2
+  · rfl
+
+theorem value_brace_quote (f : Nat) (tl : Str) :
+    value (f + 1) ('{' :: '"' :: tl) = members f ('"' :: tl) [] := by
+  rw [value_brace, skipWs_cons_of _ _ (by decide)]
+  rfl
+
+theorem numLit_jn (lit : Str) : numLit ("jn:".toList ++ lit) = lit := by
+  simp [numLit, List.dropWhile]
+
+mutual
+theorem rt_value : ∀ (v : Val) (html : Bool) (rest : Str) (f : Nat), JsonShaped v = true →
+    (∀ t, v = .num t → numEnd rest = true) → sz v ≤ f →
+    value f (encN html v ++ rest) = some (v, rest)
+  | .null, html, rest, f, _, _, hf => by
+      cases f with
+      | zero => simp [sz] at hf
+      | succ f => exact value_null f rest
+  | .bool b, html, rest, f, _, _, hf => by
+      cases f with
+      | zero => simp [sz] at hf
+      | succ f => cases b
+                  · exact value_false f rest
+                  · exact value_true f rest
+  | .num t, html, rest, f, hv, hr, hf => by
+      cases f with
+      | zero => simp [sz] at hf
+      | succ f =>
+        simp only [JsonShaped, Bool.and_eq_true, beq_iff_eq] at hv
+        rw [encN, value_num _ rest f hv.2 (hr t rfl), ← hv.1]
+  | .str s, html, rest, f, _, _, hf => by
+      cases f with
+      | zero => simp [sz] at hf
+      | succ f => exact value_str html s rest f
+  | .list [], html, rest, f, _, _, hf => by
+      cases f with
+      | zero => simp [sz] at hf
+      | succ f =>
+        simp only [encN, encList, List.cons_append, List.nil_append, List.append_nil]
+        rw [value_bracket, skipWs_cons_of _ _ (by decide)]
+  | .list (x :: xs), html, rest, f, hv, _, hf => by
+      cases f with
+      | zero => simp [sz] at hf
+      | succ f =>
+        have hx : JsonShaped x = true := by
+          simp only [JsonShaped, JsonShapedList, Bool.and_eq_true] at hv; exact hv.1
+        obtain ⟨c, tl, he, hc1, hc2, _⟩ := encN_head html x hx
+        have hh : ∃ tl', encList html (x :: xs) = c :: tl' := by
+          cases xs with
+          | nil => exact ⟨tl, by simp [encList, he]⟩
+          | cons y r => exact ⟨_, by simp [encList, he]; rfl⟩
+        obtain ⟨tl', he'⟩ := hh
+        have := rt_elements (x :: xs) html rest f [] (by simp)
+          (by simpa [JsonShaped] using hv) (by simp only [sz] at hf; omega)
+        rw [he'] at this
+        simp only [encN, List.cons_append, List.nil_append, List.append_assoc, he']
+        rw [value_bracket_ne _ _ _ hc1 hc2]
+        simpa using this
+  | .map [], html, rest, f, _, _, hf => by
+      cases f with
+      | zero => simp [sz] at hf
+      | succ f =>
+        simp only [encN, encEntries, List.cons_append, List.nil_append, List.append_nil]
+        rw [value_brace, skipWs_cons_of _ _ (by decide)]
+  | .map ((k, v) :: kvs), html, rest, f, hv, _, hf => by
+      cases f with
+      | zero => simp [sz] at hf
+      | succ f =>
+        have hh : ∃ tl', encEntries html ((k, v) :: kvs) = '"' :: tl' := by
+          cases kvs with
+          | nil => exact ⟨_, by simp [encEntries, quote]; rfl⟩
+          | cons y r => exact ⟨_, by simp [encEntries, quote]; rfl⟩
+        obtain ⟨tl', he'⟩ := hh
+        simp only [JsonShaped, Bool.and_eq_true] at hv
+        have := rt_members ((k, v) :: kvs) html rest f [] (by simp) hv.1
+          (by simpa using hv.2) (by simp only [sz] at hf; omega)
+        rw [he'] at this
+        simp only [encN, List.cons_append, List.nil_append, List.append_assoc, he']
+        rw [value_brace_quote]
+        simpa using this
+theorem rt_elements : ∀ (xs : List Val) (html : Bool) (rest : Str) (f : Nat) (acc : List Val),
+    xs ≠ [] → JsonShapedList xs = true → szList xs ≤ f →
+    elements f (encList html xs ++ ']' :: rest) acc = some (.list (acc.reverse ++ xs), rest)
+  | [], _, _, _, _, hne, _, _ => absurd rfl hne
+  | [x], html, rest, f, acc, _, hv, hf => by
+      cases f with
+      | zero => simp [szList] at hf
+      | succ f =>
+        simp only [JsonShapedList, Bool.and_eq_true] at hv
+        rw [elements, encList,
+          rt_value x html (']' :: rest) f hv.1 (fun _ _ => rfl) (by simp only [szList] at hf; omega)]
+        simp only []
+        rw [skipWs_cons_of _ _ (by decide)]
+        simp
+  | x :: y :: r, html, rest, f, acc, _, hv, hf => by
+      cases f with
+      | zero => simp [szList] at hf
+      | succ f =>
+        simp only [JsonShapedList, Bool.and_eq_true] at hv
+        have h2 := rt_elements (y :: r) html rest f (x :: acc) (by simp)
+          (by simp [JsonShapedList, hv.2.1, hv.2.2]) (by simp only [szList] at hf ⊢; omega)
+        rw [elements, encList]
+        simp only [List.append_assoc, List.cons_append, List.nil_append]
+        rw [rt_value x html (',' :: (encList html (y :: r) ++ ']' :: rest)) f hv.1
+          (fun _ _ => rfl) (by simp only [szList] at hf; omega)]
+        simp only []
+        rw [skipWs_cons_of _ _ (by decide)]
+        simp only []
+        rw [h2]; simp
+theorem rt_members : ∀ (kvs : Entries) (html : Bool) (rest : Str) (f : Nat) (acc : Entries),
+    kvs ≠ [] → JsonShapedEntries kvs = true → distinctKeys (acc ++ kvs) = true →
+    szEntries kvs ≤ f →
+    members f (encEntries html kvs ++ '}' :: rest) acc = some (.map (acc ++ kvs), rest)
+  | [], _, _, _, _, hne, _, _, _ => absurd rfl hne
+  | [(k, v)], html, rest, f, acc, _, hv, hd, hf => by
+      cases f with
+      | zero => simp [szEntries] at hf
+      | succ f =>
+        simp only [JsonShapedEntries, Bool.and_eq_true] at hv
+        rw [encEntries]
+        simp only [List.append_assoc, List.cons_append, List.nil_append]
+        rw [members_step,
+          rt_value v html ('}' :: rest) f hv.1 (fun _ _ => rfl) (by simp only [szEntries] at hf; omega)]
+        simp only []
+        rw [skipWs_cons_of _ _ (by decide)]
+        simp only []
+        rw [insert_of_not_mem k v acc (distinct_mid acc k v [] hd)]
+  | (k, v) :: e :: r, html, rest, f, acc, _, hv, hd, hf => by
+      cases f with
+      | zero => simp [szEntries] at hf
+      | succ f =>
+        obtain ⟨k2, v2⟩ := e
+        simp only [JsonShapedEntries, Bool.and_eq_true] at hv
+        have h2 := rt_members ((k2, v2) :: r) html rest f (acc ++ [(k, v)]) (by simp)
+          (by simp [JsonShapedEntries, hv.2.1, hv.2.2]) (by simpa using hd)
+          (by simp only [szEntries] at hf ⊢; omega)
+        rw [encEntries]
+        simp only [List.append_assoc, List.cons_append, List.nil_append]
+        rw [members_step,
+          rt_value v html (',' :: (encEntries html ((k2, v2) :: r) ++ '}' :: rest)) f hv.1
+            (fun _ _ => rfl) (by simp only [szEntries] at hf; omega)]
+        simp only []
+        rw [skipWs_cons_of _ _ (by decide)]
+        simp only []
+        rw [insert_of_not_mem k v acc (distinct_mid acc k v _ hd), h2]
+        simp
+end
+
 end Mxj.Json
